@@ -16,8 +16,8 @@ The service module is modelled abstractly, at the interface the oracle keeper ac
 Aggregation (`types/aggregate.go`) is modelled in exact decimal arithmetic: a value is an `Int`
 in units of `10^-S` (S ≥ 8). The float64 implementation agrees with it on the *exact domain*
 (decimal inputs with ≤ 8 fractional digits and |v| < 4.5·10^7, see `Props/C17.lean`,
-`float_domain_roundtrip`); `math.SmallestNonzeroFloat64` and `math.MaxFloat64`, the initial
-accumulators of `Max` and `Min`, are the `none` accumulators below.
+`float_domain_roundtrip`); `math.MaxFloat64`, the initial accumulator of `Min`, is the `none`
+accumulator below.
 -/
 import Irismod.Sdk.Map
 
@@ -90,14 +90,14 @@ def fmtUnits8 (u : Int) : String :=
 /-- the rational `p / q` printed with 8 decimals -/
 def fmtRat (p : Int) (q : Nat) : String := fmtUnits8 (roundHalfEven (p * 100000000) q)
 
-/-- `Max`: the accumulator starts at `math.SmallestNonzeroFloat64` (`none`), which is below
-exactly the positive values, and is replaced by `f` iff `acc < f`. -/
+/-- `Max`: the accumulator is seeded with the first value (`none` = nothing seen yet) and is
+replaced by `f` iff `acc < f`. -/
 def maxAcc : Option Int → List Int → Option Int
   | acc, [] => acc
-  | none, x :: t => if 0 < x then maxAcc (some x) t else maxAcc none t
+  | none, x :: t => maxAcc (some x) t
   | some m, x :: t => if m < x then maxAcc (some x) t else maxAcc (some m) t
 
-/-- the value `Max` formats, in units: the untouched accumulator prints as `0.00000000` -/
+/-- the value `Max` formats, in units (0 for an empty input) -/
 def litMax (xs : List Int) : Int := (maxAcc none xs).getD 0
 
 /-- `Min`: the accumulator starts at `math.MaxFloat64` (`none`), above every value. -/
